@@ -12,6 +12,7 @@ CONSTANTS
   AllowWrFail = TRUE
   AllowCancel = FALSE
   ChanCap1 = TRUE
+  SendErrToRegistered = TRUE
   KeepSlotOnCancel = TRUE
 INVARIANTS Inv_C03_OwnReply Inv_C03_DistinctIds Inv_C03_Framing Inv_C04_NotifiedOnce Inv_C03_NoSpuriousTeardown
 CHECK_DEADLOCK TRUE
